@@ -69,6 +69,55 @@ CHECKS["C16"] = (
     "DESIGN.md section 4, C16",
 )
 
+CHECKS["C01"] = (
+    "listener typestate: abstract interpretation of ZorgFileCompiler's enter/exit methods along the ZorgFile ATN with provenance labels; grammar rule-graph and shadowed-alternative tests; table agreement",
+    "Decides, for every walker event sequence the (non-recursive, hence regular) file grammar admits: Note is constructed only while leaving base_note/base_todo, at "
+    "most once per item (R2); the todo_prefix token <-> enterTodo_prefix <-> NoteType table is a bijection, checked by interpreting the handler per literal (R3); at every "
+    "abstract note construction the kind, priority, ZID, modify date, line number and body carry only provenance of the current item or the constant default - a value of "
+    "a closed item/section surviving in the listener state is reported with the field and scope (R4); look-alike words: todo_prefix is unreachable in bodies, the priority "
+    "alternative of unquoted_word is shadowed by id_group, ids from the third on (second without modify date) write nothing, every id advances the position counter (R5); "
+    "every override names a real listener method (R1).",
+    "Over-approximates the grammar (all alternatives but proven-shadowed ones feasible); does not decide file order of notes, verbatim bodies, or the today() fallback. "
+    "Trusts the ParseTreeWalker contract and ANTLR's lowest-alternative ambiguity resolution.",
+    "DESIGN.md section 4, C01",
+)
+CHECKS["C02"] = (
+    "listener typestate over the ATN with scope-closing provenance labels (may-analysis with trace partitioning), exhaustive decision evaluation of the precedence properties",
+    "Decides: (R2) at each of the abstract note constructions under every legal section stack, tags/links/properties/create_date carry only labels of the title line, "
+    "header block (properties only), OPEN enclosing sections and the item - labels of closed sections/items, in-block comments, later header lines (tags) and quoted "
+    "properties never appear; (R3) conversely every open scope reaches every kind under the right keyword on some path (necessary for completeness) and each tag list only "
+    "receives its own kind; (R4) create_date and same-key properties resolve to the innermost non-empty scope on all 64 emptiness patterns, by interpreting the two "
+    "properties of the state class; (R5) every storing path of _add_tag carries the fact 'not digits-only'.",
+    "String equality / de-duplication of values is not modelled. Same trusted base as C01.",
+    "DESIGN.md section 4, C02",
+)
+CHECKS["C09"] = (
+    "AST dataflow rules (groupby-over-sorted-by-same-key), abstract interpretation of the enum keyfunc/selector/header dispatch per member, format-spec rule for integer keys, lexer-literal table",
+    "Decides: groupby runs only over notes sorted by the identical key and groups are stored once (R1); every ORDER BY key embeds dates as %Y%m%d and integers with fixed-width "
+    "zero padding, and the composite key joins all component keys positionally without filtering (R2); keyfunc/_get_selector/_get_header are total over their enums/levels and "
+    "pair each member with the right note field and sigil - evaluated by interpreting them per member (R3); header markers equal the H1..H4_HEADER token literals and headers are "
+    "omitted only for empty labels (R4); count(x) is len() of exactly selector-of-x(group) (R5); file labels remove exactly '.zo' (R6).",
+    "Does not evaluate rendered output over index contents. Known finding: the `none` ordering embeds the unpadded line number (pinned by existing snapshots).",
+    "DESIGN.md section 4, C09",
+)
+CHECKS["C10"] = (
+    "path-sensitive conservation rule on the line splice, locator-shape rule, table agreement with enum and grammar, effect/path order rules",
+    "Decides: in lines[:s] + note + lines[e:] every path has e == s or (e == s+1 and lines[s] shown blank on that path) (R1); the predicate locating the source line pins the ZID "
+    "to the own-ZID position and never uses substring containment (R2); item-prefix tuples equal NoteType values + ' ' and the tag sigils of the hidden-metadata helpers agree "
+    "with each other and with the grammar's token literals, all four kinds plus properties covered (R3); add precedes delete, failures give a non-zero status, both file operations "
+    "write the page themselves on every successful path (no staged writes), _to_done_note changes only the payload (R4); inherited metadata is spliced in at the note's own ZID (R5).",
+    "Arbitrary page layouts beyond R1/R2 and value-level recompilation equality are not decided.",
+    "DESIGN.md section 4, C10",
+)
+CHECKS["C17"] = (
+    "effect catalogue over the call-graph slice of run_action_open with string-shape analysis of every stdout print; marker/strip-set table agreement; index arithmetic rules",
+    "Decides: every stdout effect reachable from run_action_open (through swog, the repo, sessions, templates) prints a string whose first piece is a constant "
+    "starting with EDIT/SEARCH/PROMPT/ECHO (R1); the link markers of the word scan equal those _open_link dispatches, and stripped punctuation is disjoint from kind prefixes "
+    "and brackets (R2); one target opens directly, option k selects element k-1, -1 the last, PROMPT lists targets in scan order (R3); 'several pages' is decided on distinct pages (R4).",
+    "The primary-ZID heuristic over all lines, what the index resolves, and child-process output are not decided. Known finding: -vvv enables SQLAlchemy echo on stdout.",
+    "DESIGN.md section 4, C17",
+)
+
 NOT_YET = {
 }
 
